@@ -16,7 +16,7 @@ BOUNDS = {'quick': {'tasks': 2, 'graphs': 'all 3 labelled graphs on 2 tasks (non
                     'plus': '3-task chain and hard+soft fan-in with 1 worker', 'outcomes': KINDS,
                     'depth': 'every run, first K = 22+11N+6W steps (completeness of K is established in the thorough tier)'},
           'thorough': {'tasks': '<= 3', 'graphs': 'all 27 labelled hard/soft/none graphs on 3 tasks (W=1), 2-task graphs W<=3, '
-                       '3-task chain/fan-in/fan-out W=2', 'outcomes': KINDS, 'depth': 'K established by the unwinding query'}}
+                       'outcomes': KINDS, 'depth': 'K established by the unwinding query'}}
 EXPLANATION = ('per-thread automata extracted from the real scheduler code by symbolic execution between synchronisation points; '
                'z3 bounded model checking (QF_BV) with the interleaving, task outcomes and clock as solver variables; '
                'counterexamples replayed on real threads')
@@ -48,10 +48,37 @@ def confirm(cfg, rp, kinds, extra):
 CONFIRM = {Q1: confirm}
 
 
+Q2 = 'the update published by a DONE task is lost from the environment'
+
+
+def confirm_lost(cfg, rp, kinds, extra):
+    if rp.get('outcome') != 'returned' or not getattr(cfg, 'shared', False):
+        return None
+    sh = rp['env'].get('shared')
+    for j, n in enumerate(cfg.names):
+        st = getattr((rp['env'].get(n) or {}).get('status'), 'name', None)
+        if st == 'DONE' and KINDS[kinds[j]] == 'done' and (not isinstance(sh, dict) or n not in sh):
+            return f'{n} is DONE but its part of the shared key is gone: shared = {sh!r}'
+    return None
+
+
+CONFIRM[Q2] = confirm_lost
+
+
 def prop(an, prod):
     props.add_c01_monitor(prod)
+    qs = [(Q1, lambda u: u.at(u.K, prod.pre['bad01']), confirm)]
+    if prod.cfg.shared:
+        p = prod.pre
+        n = prod.cfg.n
+        lost = []
+        for j, nm in enumerate(prod.cfg.names):
+            lost.append(z3.And(p[f'p{j}'], p[f'h{j}_status'], p[f'v{j}_status'] == props.DONE, p[f'kind{j}'] == 0,
+                               z3.Not(z3.And(p[f'p{n}'], p[f'h{n}_{nm}'], p[f'v{n}_{nm}'] == props.payload_code(prod, j)))))
+        done = z3.And(prod.terminal_kind(0, 'END'), *[prod.terminal(t) for t in range(1, prod.T)])
+        qs.append((Q2, lambda u: u.at(u.K, z3.And(done, z3.Or(*lost))), confirm_lost))
     return {'init': lambda prod: z3.And(props.init_common(prod, empty_env=True), z3.Not(prod.pre['bad01'])),
-            'queries': [(Q1, lambda u: u.at(u.K, prod.pre['bad01']), confirm)]}
+            'queries': qs}
 
 
 def _job(n, hard, soft, w, tier, shared=False, seed=0):
@@ -62,8 +89,10 @@ def jobs(tier):
     out = sched.standard_jobs(tier, _job)
     # updates that also write under ONE environment key shared by all tasks (atomicity of Env.apply):
     # two publishers and a reader, two workers
-    c = Config(3, [(2, 0), (2, 1)], [], 2, shared=True)
-    out.append((cfg_name(c) + '-shared', _job, dict(n=3, hard=[(2, 0), (2, 1)], soft=[], w=2, tier=tier, shared=True)))
+    # (two independent publishers, two workers; the 3-task version with a reader needs > 15 min per query)
+    if tier == 'thorough':
+        c = Config(2, [], [], 2, shared=True)
+        out.append((cfg_name(c) + '-shared', _job, dict(n=2, hard=[], soft=[], w=2, tier=tier, shared=True)))
     return out
 
 
